@@ -456,7 +456,8 @@ class Ref:
 
     def check_final(self, final, q):
         dev = []
-        phys = {i: rel for i, rel in final}
+        phys = {e[0]: e[1] for e in final}
+        states = {e[0]: e[2] for e in final}
         for i, (s, d) in self.m.items():
             if self.live(i):
                 if self.backend == "sqlite":
@@ -465,6 +466,8 @@ class Ref:
                     want = -(-(d - self.now) // q) * q
                 if phys.get(i) != want:
                     dev.append(("final", "live record %d: table has relative deadline %r ms, expected %d" % (i, phys.get(i), want)))
+                elif states.get(i) != s:
+                    dev.append(("final", "live record %d: table holds state %r, last successful write was state #%d" % (i, states.get(i), s)))
         for i, rel in phys.items():
             if rel > 0 and not self.live(i):
                 dev.append(("final", "table holds a live record %d (deadline +%d ms) that no successful call wrote" % (i, rel)))
